@@ -128,26 +128,20 @@ Definition k_smaps (ms : list mapping) : bytes := concat (map k_block ms).
 
 Definition is_hex (c : Z) : bool := is_digit c || ((97 <=? c) && (c <=? 102)).
 
-(* [ex p]: does a file named p exist for the caller (the only outside fact consulted) *)
-Definition path_ok (ex : bytes -> bool) (m : mapping) : bool :=
+(* the first byte of a name: names are d_path output ('/...', '(unreachable)/...'), bracketed
+   pseudo-names or 'anon_inode:'-like names, never an ASCII blank (blanks in front of the name
+   are the kernel's column padding; see C13_maps_leading_blank_observation).  Every byte is
+   allowed after it, newlines included (shown escaped). *)
+Definition path_head_ok (m : mapping) : bool :=
   match m_path m with
   | [] => negb (m_deleted m)
-  | c :: _ =>
-    (* names are d_path output ('/...', '(unreachable)/...'), bracketed pseudo-names or
-       'anon_inode:'-like names: the first byte is never an ASCII blank (blanks in front of
-       the name are the kernel's column padding; see C13_maps_leading_blank_observation).
-       Every byte is allowed after it, newlines included (shown escaped). *)
-    negb (is_ws c)
-    (* the kernel's " (deleted)" marker is readable as such: no file is literally
-       named "<name> (deleted)", and a live file whose shown name ends so exists *)
-    && (if m_deleted m then negb (ex (shown_path m))
-        else negb (suffixb deleted_sfx (shown_path m)) || ex (shown_path m))
+  | c :: _ => negb (is_ws c)
   end.
 (* everything the kernel guarantees about a mapping: its header line ... *)
-Definition wf_header (ex : bytes -> bool) (m : mapping) : bool :=
+Definition wf_header (m : mapping) : bool :=
   forallb tok_ok (hdr_tokens m) && negb (suffixb [58] (m_addr m))
   && match m_addr m with c :: _ => is_hex c | [] => false end      (* "%08lx-%08lx" *)
-  && path_ok ex m.
+  && path_head_ok m.
 (* ... and the lines below it: at least one, each of the eleven figures at most once, any
    number of other lines (any names that are not figure names and do not start with
    "Private", ANY values) *)
@@ -155,8 +149,26 @@ Definition wf_body (ls : list kline) : bool :=
   forallb wf_line ls
   && forallb (fun f => Nat.leb (count_fig f ls) 1) all_figs
   && match ls with [] => false | _ => true end.
-Definition wf_kernel (ex : bytes -> bool) (m : mapping) : bool :=
-  wf_header ex m && wf_body (m_lines m).
+Definition wf_kernel0 (m : mapping) : bool := wf_header m && wf_body (m_lines m).
+
+(* [probe p]: what the caller's os.stat(p) answers -- the only outside fact consulted, and only
+   for names that end in " (deleted)" *)
+Definition is_exists (r : probe_res) : bool := match r with PExists => true | _ => false end.
+Definition is_denied (r : probe_res) : bool := match r with PDenied => true | _ => false end.
+Definition marked (m : mapping) : bool :=
+  match m_path m with [] => false | _ => suffixb deleted_sfx (shown_path m) end.
+(* the probe gives an answer -- "there" or "not there", the latter for whatever errno
+   (ENOENT, ENOTDIR, ENAMETOOLONG, ELOOP, EIO, EOVERFLOW ...) -- rather than a permission error *)
+Definition probe_answers (probe : bytes -> probe_res) (m : mapping) : bool :=
+  negb (marked m) || negb (is_denied (probe (shown_path m))).
+(* the kernel's " (deleted)" marker is readable as such: an unlinked file's marked name is
+   not the name of an existing file, and a live file whose shown name ends so exists *)
+Definition marker_ok (probe : bytes -> probe_res) (m : mapping) : bool :=
+  negb (marked m)
+  || (if m_deleted m then negb (is_exists (probe (shown_path m))) else is_exists (probe (shown_path m))).
+Definition wf_kernel (probe : bytes -> probe_res) (m : mapping) : bool :=
+  wf_kernel0 m && marker_ok probe m && probe_answers probe m.
+
 
 (* a kernel prints the same set of lines for every mapping (which lines depends on its
    version and configuration, not on the mapping): each row figure is on every mapping or
@@ -202,6 +214,17 @@ Definition spec_row (m : mapping) : maprow :=
      (* the mapping's own path as the kernel shows it: newlines as \012 (= the path itself
         when it contains none, esc_nl_id) *)
      w_path := match m_path m with [] => anon_path | _ => kname m end;
+     w_nums := map (fun f => kb m f * 1024) row_figs |}.
+(* the path column for ANY answer of the probe: the shown name, without the marker unless a
+   file of the marked name exists *)
+Definition row_path (probe : bytes -> probe_res) (m : mapping) : bytes :=
+  match m_path m with
+  | [] => anon_path
+  | _ => if marked m && negb (is_exists (probe (shown_path m)))
+         then firstn (length (shown_path m) - 10) (shown_path m) else shown_path m
+  end.
+Definition probed_row (probe : bytes -> probe_res) (m : mapping) : maprow :=
+  {| w_addr := m_addr m; w_perms := m_perms m; w_path := row_path probe m;
      w_nums := map (fun f => kb m f * 1024) row_figs |}.
 Definition private_kb (m : mapping) : Z :=
   kb m FPrivateClean + kb m FPrivateDirty + kb m FPrivateHugetlb.
